@@ -94,7 +94,44 @@ class _FakePath:
         return self.fs.links.get(p, p)
 
     def isfile(self, p):
-        return self.fs.kind.get(p) == 'f'
+        return self.fs.kind.get(_norm(p)) == 'f'
+
+    # the rest of the os.path surface a which() implementation may reasonably use
+    sep = '/'
+
+    def isdir(self, p):
+        return self.fs.kind.get(_norm(p)) == 'd'
+
+    def exists(self, p):
+        return _norm(p) in self.fs.kind
+
+    def islink(self, p):
+        return p in self.fs.links
+
+    def isabs(self, p):
+        return p.startswith('/')
+
+    def basename(self, p):
+        return p[p.rfind('/') + 1:]
+
+    def split(self, p):
+        return (self.dirname(p), self.basename(p))
+
+    def abspath(self, p):
+        return _norm(p if p.startswith('/') else '/cwd/' + p)
+
+    def normpath(self, p):
+        return _norm(p)
+
+    def expanduser(self, p):
+        return p
+
+
+def _norm(p):
+    """the kernel's view of a path: '/./' segments vanish ('./x' stays relative)"""
+    while '/./' in p:
+        p = p.replace('/./', '/')
+    return p
 
 
 class _FakeOSFS:
@@ -107,7 +144,7 @@ class _FakeOSFS:
         self.path = _FakePath(self)
 
     def access(self, p, mode):
-        return bool(self.xok.get(p))
+        return bool(self.xok.get(_norm(p)))
 
     def stat(self, p):
         class R:
@@ -134,7 +171,7 @@ def B_which(xa, xb, xbin, xhere, fa, fb, envk, osk, explicit):
         r = U.which(name, env=env)
 
     def ok(p):
-        return kind.get(p) == 'f' and bool(xok.get(p))
+        return kind.get(_norm(p)) == 'f' and bool(xok.get(_norm(p)))
     if explicit and ok(name):
         return 4 if r == name else 0
     eff = environ if env is None else env
